@@ -231,7 +231,7 @@ class _ManifoldDynamicsService(_DynamicsServiceBase):
         Tuple[np.ndarray, np.ndarray, np.ndarray, np.ndarray]
             The stm of the manifold.
         """
-        cache_key = self.make_key(id(self.orbit), steps, self.forward)
+        cache_key = self.make_key(id(self.orbit), self._orbit_state_key(), steps, self.forward)
         
         def _factory() -> Tuple[np.ndarray, np.ndarray, np.ndarray, np.ndarray]:
             return _compute_stm(
@@ -264,6 +264,7 @@ class _ManifoldDynamicsService(_DynamicsServiceBase):
     ) -> Tuple[float, float, List[np.ndarray], List[np.ndarray], int, int]:
         cache_key = self.make_key(
             id(self.orbit),
+            self._orbit_state_key(),
             self.stable,
             self.direction,
             step,
@@ -278,7 +279,7 @@ class _ManifoldDynamicsService(_DynamicsServiceBase):
         )
 
         def _factory() -> Tuple[float, float, List[np.ndarray], List[np.ndarray], int, int]:
-            self._manifold_result = self._run_compute(
+            return self._run_compute(
                 step=step,
                 integration_fraction=integration_fraction,
                 NN=NN,
@@ -290,9 +291,14 @@ class _ManifoldDynamicsService(_DynamicsServiceBase):
                 safe_distance=safe_distance,
                 show_progress=show_progress,
             )
-            return self._manifold_result
 
-        return self.get_or_create(cache_key, _factory)
+        # `result` / `trajectories` document the most recent compute() call, cached or not
+        self._manifold_result = self.get_or_create(cache_key, _factory)
+        return self._manifold_result
+
+    def _orbit_state_key(self) -> tuple:
+        """State of the generating orbit every cached quantity of the manifold depends on."""
+        return (tuple(np.asarray(self.orbit.initial_state, dtype=float).tolist()), self.period)
 
     def _run_compute(
         self,
@@ -462,12 +468,14 @@ class _ManifoldDynamicsService(_DynamicsServiceBase):
         if options is None:
             options = self.eigendecomposition_options
             
-        key = self.make_key(id(self.domain_obj), tuple(sorted(options.to_dict().items())))
+        key = self.make_key(id(self.domain_obj), self._orbit_state_key(), tuple(sorted(options.to_dict().items())))
         
         def _factory() -> StabilityPipeline:
             _, _, phi_T, _ = self.compute_stm(steps=2000)
-            self.generator.compute(domain_obj=phi_T, options=options)
-            return self.generator
+            # one pipeline per cache entry (the pipeline keeps only its last result)
+            pipeline = StabilityPipeline.with_default_engine(config=self.eigendecomposition_config)
+            pipeline.compute(domain_obj=phi_T, options=options)
+            return pipeline
         
         return self.get_or_create(key, _factory)
 
